@@ -221,8 +221,18 @@ func (x *Exec) verifyFunc(key string) (err error) {
 			}
 		}
 	}
+	preGhost := map[string]string{}
 	if con != nil {
 		for _, gs := range con.GhostSets {
+			// old(g) in the postconditions means the value before the function's own ghost assignments
+			if _, seen := preGhost["ghost:"+gs.Name]; !seen {
+				ty := x.Lib.Ghosts[gs.Name]
+				t, gsrt := x.resolveType(x.Lib.GhostPkg[gs.Name], ty)
+				if gsrt == "" {
+					gsrt = x.C.sortOf(t)
+				}
+				preGhost["ghost:"+gs.Name] = x.heap(st, "ghost:"+gs.Name, gsrt)
+			}
 			env := x.envFor(fr, st, nil, "requires")
 			var gv Val
 			func() {
@@ -266,6 +276,9 @@ func (x *Exec) verifyFunc(key string) (err error) {
 		x.C.used["axiom:"+ax.Label] = true
 	}
 	fr.entry = st.clone()
+	for name, v := range preGhost {
+		fr.entry.heaps[name] = v
+	}
 	fr.ret = func(st *State, results []Val) {
 		x.checkEnsures(st, fr, results)
 	}
@@ -282,6 +295,11 @@ func (x *Exec) assumeExisting(st *State, v Val) {
 		}
 	case *types.Pointer, *types.Map, *types.Chan, *types.Signature:
 		st.assume(fmt.Sprintf("(< %s %s)", v.Term, st.alloc))
+	case *types.Interface:
+		// an existing error value: the *HTTPError in its chain (if any) has been allocated
+		if isErrorType(v.T) {
+			st.assume(fmt.Sprintf("(and (>= (asHTTP %s) 0) (< (asHTTP %s) %s))", v.Term, v.Term, st.alloc))
+		}
 	case *types.Struct:
 		if isTimeType(v.T) {
 			return
